@@ -110,6 +110,7 @@ type method struct {
 	callerIDs   []string // identities used: "caller" (contract.Caller()), "origin" (evm.Origin)
 	originSinks []string // functions that receive evm.Origin as an argument
 	valueUse    bool     // reads contract.Value()
+	defers      bool     // Run (or a closure in it) contains a defer statement or calls recover()
 }
 
 func constructorOf(p *pkg, e ast.Expr, locals map[string]ast.Expr) string {
@@ -634,7 +635,25 @@ func (w *walker) helper(recv, name string) *ast.FuncDecl {
 	return fds[0]
 }
 
+// hasDeferOrRecover: a panic raised below this code could be intercepted here
+func hasDeferOrRecover(n ast.Node) bool {
+	found := false
+	ast.Inspect(n, func(x ast.Node) bool {
+		switch y := x.(type) {
+		case *ast.DeferStmt:
+			found = true
+		case *ast.CallExpr:
+			if id, ok := y.Fun.(*ast.Ident); ok && id.Name == "recover" {
+				found = true
+			}
+		}
+		return !found
+	})
+	return found
+}
+
 func (p *pkg) analyseRun(m *method, run *ast.FuncDecl) {
+	m.defers = hasDeferOrRecover(run.Body)
 	w := &walker{p: p, m: m}
 	evmName, contractName := paramName(run, 0), paramName(run, 1)
 	evmNames := map[string]bool{evmName: true}
@@ -748,6 +767,7 @@ func (p *pkg) analyseRun(m *method, run *ast.FuncDecl) {
 // ---- Contract.Run guard sequence ----
 
 type runShape struct {
+	recovers   bool     // Contract.Run contains a defer statement or calls recover()
 	flat       bool     // readonly guard, switch check and dispatch are consecutive direct statements of the lookup branch, unconditionally
 	guards     []string // in source order
 	disabledID string   // expression passed as the method id to CheckDisabledPrecompiles
@@ -761,6 +781,7 @@ func (p *pkg) contractRun() runShape {
 	}
 	var rs runShape
 	rs.errPacked = true
+	rs.recovers = hasDeferOrRecover(run.Body)
 	roName := paramName(run, 2)
 	// the lookup branch: for ... { if bytes.Equal(...) { <readonly guard>; stateDB := ...; <switch check>; ret, err = method.Run; ... } }
 	ast.Inspect(run.Body, func(n ast.Node) bool {
@@ -994,7 +1015,7 @@ func main() {
 	sb.WriteString("Inductive step := SRead | SWrite | SNestedDB | SScratch | SLog | SEvmCall | SEvmStatic | SAlt (a b : list step).\n")
 	sb.WriteString("Inductive guard := GInputLen | GLookup | GReadonly | GDisabled | GDispatch.\n")
 	sb.WriteString("Inductive callkind := CALL | CALLCODE | DELEGATECALL | STATICCALL.\n\n")
-	sb.WriteString("Record pmethod := mk_pmethod {\n  pm_contract : pc_contract;\n  pm_name : string;          (* ABI method name *)\n  pm_selector : string;      (* 4-byte method id, hex (from the ABI in contract/I*.go) *)\n  pm_gotype : string;\n  pm_readonly : bool;        (* IsReadonly() *)\n  pm_gas : Z;                (* RequiredGas() *)\n  pm_actions : Z;            (* ExecuteNativeAction calls in Run *)\n  pm_outer_ctx : bool;       (* Run obtains the live context outside the action closure *)\n  pm_steps : list step;\n  pm_identities : list string;  (* \"caller\" = contract.Caller(), \"origin\" = evm.Origin *)\n  pm_origin_sinks : list string; (* functions that receive evm.Origin *)\n  pm_value : bool            (* reads contract.Value() *)\n}.\n\n")
+	sb.WriteString("Record pmethod := mk_pmethod {\n  pm_contract : pc_contract;\n  pm_name : string;          (* ABI method name *)\n  pm_selector : string;      (* 4-byte method id, hex (from the ABI in contract/I*.go) *)\n  pm_gotype : string;\n  pm_readonly : bool;        (* IsReadonly() *)\n  pm_gas : Z;                (* RequiredGas() *)\n  pm_actions : Z;            (* ExecuteNativeAction calls in Run *)\n  pm_outer_ctx : bool;       (* Run obtains the live context outside the action closure *)\n  pm_steps : list step;\n  pm_identities : list string;  (* \"caller\" = contract.Caller(), \"origin\" = evm.Origin *)\n  pm_origin_sinks : list string; (* functions that receive evm.Origin *)\n  pm_value : bool;           (* reads contract.Value() *)\n  pm_defers : bool           (* Run contains a defer statement or calls recover() *)\n}.\n\n")
 	sb.WriteString("Definition methods : list pmethod := [\n")
 	first := true
 	sels := map[string]map[string]string{
@@ -1027,8 +1048,12 @@ func main() {
 			if m.valueUse {
 				vu = "true"
 			}
-			fmt.Fprintf(&sb, "  mk_pmethod %s %s %s %s %s %d %d %s [%s] %s %s %s", c, coqStr(m.abiName), coqStr(m.selector), coqStr(m.goType), ro, m.gas,
-				m.usesAction, oc, strings.Join(m.steps, "; "), coqStrList(m.callerIDs), coqStrList(m.originSinks), vu)
+			df := "false"
+			if m.defers {
+				df = "true"
+			}
+			fmt.Fprintf(&sb, "  mk_pmethod %s %s %s %s %s %d %d %s [%s] %s %s %s %s", c, coqStr(m.abiName), coqStr(m.selector), coqStr(m.goType), ro, m.gas,
+				m.usesAction, oc, strings.Join(m.steps, "; "), coqStrList(m.callerIDs), coqStrList(m.originSinks), vu, df)
 		}
 	}
 	sb.WriteString("\n].\n\n")
@@ -1049,6 +1074,23 @@ func main() {
 		if rs.flat {
 			fl = "true"
 		}
+		rc := "false"
+		if rs.recovers {
+			rc = "true"
+		}
+		fmt.Fprintf(&sb, "(* Contract.Run contains a defer statement or calls recover(): a keeper panic would not abort the transaction *)\nDefinition %s_run_recovers : bool := %s.\n", nm, rc)
+		nrec := 0
+		for _, f := range p.files {
+			ast.Inspect(f, func(x ast.Node) bool {
+				if c, ok := x.(*ast.CallExpr); ok {
+					if id, ok := c.Fun.(*ast.Ident); ok && id.Name == "recover" {
+						nrec++
+					}
+				}
+				return true
+			})
+		}
+		fmt.Fprintf(&sb, "(* calls of recover() anywhere in the package (helpers included) *)\nDefinition %s_pkg_recover_calls : Z := %d.\n", nm, nrec)
 		fmt.Fprintf(&sb, "(* readonly guard, switch check and dispatch are consecutive unconditional statements of the lookup branch *)\nDefinition %s_guards_flat : bool := %s.\n\n", nm, fl)
 	}
 	gomodB, err := os.ReadFile(filepath.Join(repo, "go.mod"))
